@@ -398,9 +398,10 @@ func (fr *Frame) builtin(st *State, b *ssa.Builtin, cc *ssa.CallCommon, pos toke
 		return Val{}
 	case "close":
 		ch := args[0].T
-		closed := ex.get(st, "ChanClosed", ArraySort(SRef, SBool))
+		cc0 := "ChanClosed_" + typeKey(chanElem(cc.Args[0].Type()))
+		closed := ex.get(st, cc0, ArraySort(SRef, SBool))
 		fr.safetyNamed(st, "chan", And(Neq(ch, TNull), Not(Select(closed, ch))), pos, "close of nil or closed channel", instr)
-		ex.set(st, "ChanClosed", Store(closed, ch, TTrue))
+		ex.set(st, cc0, Store(closed, ch, TTrue))
 		return Val{}
 	case "panic":
 		fr.panics = append(fr.panics, retPoint{st.clone(), args})
